@@ -171,7 +171,8 @@ def default_value(descr):
 class Program:
     """Straight-line evaluation program for a list of root terms."""
 
-    def __init__(self, roots, extra_funcs=None, strict_funcs=True):
+    def __init__(self, roots, extra_funcs=None, defs=None):
+        self.defs = defs or {}  # name of a 0-ary symbol -> defining term (symbol is an alias of it)
         self.code = []  # list of (opfn, argslots tuple, aux)
         self.slot_of = {}  # ast id -> slot
         self._keep = []  # keep ASTs alive so ids are not reused
@@ -195,7 +196,12 @@ class Program:
                 continue
             if not expanded:
                 stack.append((node, True))
-                if z3.is_app(node):
+                dname = self._def_name(node)
+                if dname is not None:
+                    c = self.defs[dname]
+                    if c.get_id() not in self.slot_of:
+                        stack.append((c, False))
+                elif z3.is_app(node):
                     for i in range(node.num_args()):
                         c = node.arg(i)
                         if c.get_id() not in self.slot_of:
@@ -204,8 +210,20 @@ class Program:
                     raise Unevaluable("quantifier")
                 continue
             self._keep.append(node)
-            self.slot_of[nid] = self._compile_node(node)
+            dname = self._def_name(node)
+            if dname is not None:
+                self.slot_of[nid] = self.slot_of[self.defs[dname].get_id()]
+            else:
+                self.slot_of[nid] = self._compile_node(node)
         return self.slot_of[t.get_id()]
+
+    def _def_name(self, node):
+        if not self.defs or not z3.is_app(node) or node.num_args() != 0:
+            return None
+        if node.decl().kind() != z3.Z3_OP_UNINTERPRETED:
+            return None
+        name = node.decl().name()
+        return name if name in self.defs else None
 
     def _compile_node(self, t):
         if not z3.is_app(t):
